@@ -328,7 +328,10 @@ def gen_hfp_slc(rng, tier, seed):
     return {'hf': subset(HF_FEATURES), 'ag': subset(AG_FEATURES), 'hf_ind': rng.sample([1, 2], rng.randint(0, 2)), 'ag_hf_ind': rng.sample([1, 2], rng.randint(0, 2)),
             'hf_codecs': rng.sample([1, 2, 3], rng.randint(1, 3)), 'ag_codecs': rng.sample([1, 2, 3], rng.randint(1, 3)),
             'chld': rng.sample(['0', '1', '1x', '2', '2x', '3', '4'], rng.randint(0, 7)), 'extra_ind': rng.random() < 0.5,
-            'mfs': rng.choice([23, 127, 1000]), 'credits': rng.randint(1, 7), 'profile': rng.choice(PROFILE_NAMES)}
+            'mfs': rng.choice([23, 127, 1000]), 'credits': rng.randint(1, 7), 'profile': rng.choice(PROFILE_NAMES),
+            # after the SLC: indicator updates by the AG, some of them while a command of the HF is awaiting its OK
+            'live': [[rng.randrange(7), rng.randrange(2), rng.choice(['none', 'cmd-then-update', 'update-then-cmd']), rng.choice(['AT+VGS=7', 'AT+VGM=3', 'AT+NREC=0'])]
+                     for _ in range(rng.randint(0, 5))]}
 
 
 def _hfp_link(sim, case):
@@ -416,6 +419,38 @@ def run_hfp_slc(case):
                 sim.violation_once('hfind', 'hfp:hf-indicator-sets-differ', f'common {common}; AG holds {ag_side}, HF marks {hf_side}')
         if both3 or bothc or bothi:
             sim.probe('optional_feature_shared')
+        # ---- indicators stay the same on both sides while the AG reports changes, also when a report crosses a command of the HF
+        if case.get('live') and a_ind == h_ind:
+            runner_task = sim.loop.create_task(hf.run())
+            sim.loop.settle(vt_budget=1.0)
+            for idx, val, mode, cmd in case['live']:
+                st_ = ag.ag_indicators[idx % len(ag.ag_indicators)]
+                tcmd = None
+                if mode == 'cmd-then-update':
+                    tcmd = sim.loop.create_task(hf.execute_command(cmd, timeout=10.0))
+                    sim.call(ag.update_ag_indicator, st_.indicator, val)
+                elif mode == 'update-then-cmd':
+                    sim.call(ag.update_ag_indicator, st_.indicator, val)
+                    tcmd = sim.loop.create_task(hf.execute_command(cmd, timeout=10.0))
+                else:
+                    sim.call(ag.update_ag_indicator, st_.indicator, val)
+                if tcmd is not None:
+                    sim.probe('indicator_report_crossing_a_command')
+                    sim.loop.drive(tcmd.done, vt_budget=15.0, step_budget=300_000)
+                    if not tcmd.done():
+                        sim.violation_once('livecmd', f'hfp:command-never-concluded:{mode}', f'{cmd} while the AG reported an indicator')
+                        tcmd.cancel()
+                    elif not tcmd.cancelled() and tcmd.exception() is not None and cmd != 'AT+NREC=0':
+                        sim.violation_once('livecmd', f'hfp:command-failed:{mode}:{type(tcmd.exception()).__name__}', f'{cmd}: {tcmd.exception()!r}')
+                    elif not tcmd.cancelled():
+                        tcmd.exception()
+                sim.loop.settle(vt_budget=2.0)
+                sim.loop.advance(0.3)
+            a_ind = [(i.indicator, i.current_status) for i in ag.ag_indicators]
+            h_ind = [(i.indicator, i.current_status) for i in hf.ag_indicators]
+            if a_ind != h_ind:
+                sim.violation_once('indicators', 'hfp:indicators-diverge-after-reports', f'HF {h_ind} / AG {a_ind}')
+            runner_task.cancel()
         sim.trace.shape(tuple(sorted(case['hf'])), tuple(sorted(case['ag'])), tuple(case['chld']))
         return result(sim, nontrivial=both3 or bothc or bothi)
     finally:
